@@ -11,7 +11,9 @@ SubQ == E0 \cup { TBin(TId("a"), TId("b")), TCall(TId("a"), <<TId("b")>>) }
 \* a few trees with the other operator (token-valued bindings)
 MinusQ == { TBinO("-", a, b) : a \in E0, b \in E0 }
             \cup { TBinO(o1, TBinO(o2, TId("a"), TId("b")), TBinO(o3, TId("a"), TId("b"))) : o1 \in {"+", "-"}, o2 \in {"+", "-"}, o3 \in {"+", "-"} }
-TreesQuick == E1 \cup BinOver(SubQ) \cup CallOver(E0, SubQ, 2) \cup MinusQ
+\* a few calls with three arguments (family O: lists of length three)
+Call3Q == { TCall(TId("a"), <<x, y, z>>) : x \in E0, y \in E0, z \in E0 }
+TreesQuick == E1 \cup BinOver(SubQ) \cup CallOver(E0, SubQ, 2) \cup MinusQ \cup Call3Q
 
 \* ---------------------------------------------------------------- patterns
 
@@ -78,7 +80,22 @@ FamD == Good({ Or2(s, l) : s \in SeqD, l \in LastD }
                                          l \in { PBin(PAny, PId(PStr("b"))), PBin(Ref("y"), PId(PStr("a"))) },
                                          m \in LastD })
 
-QuickPats  == SetToSeq(FamAq \cup FamS \cup FamT \cup FamLq \cup FamD)
+\* family O: alternatives that are themselves list patterns, in the argument position of a call, alone and
+\* under Not / inside an outer Or.  List.Match evaluates head and tail independently, so a failed
+\* alternative may have bound names in its head: exactly what the Or's frame has to undo.
+ElemO == {PAny, Ref("x"), Ref("y"), PId(PStr("a"))}
+Len1O == { PCons(h, PNil) : h \in ElemO }
+Len2O == { PCons(h, t) : h \in ElemO, t \in Len1O }
+Len3O == { PCons(Ref("x"), PCons(Ref("x"), PCons(PAny, PNil))), PCons(PAny, PCons(Ref("x"), PCons(Ref("x"), PNil))),
+           PCons(Ref("x"), PCons(PAny, PCons(Ref("y"), PNil))) }
+ListO == Len1O \cup Len2O \cup Len3O \cup {PCons(Ref("x"), Ref("y")), PCons(Ref("x"), PAny)}
+OrO   == { Or2(l1, l2) : l1 \in ListO, l2 \in ListO }
+FamO == Good({ PCall(PAny, o) : o \in OrO }
+             \cup { PCall(Ref("y"), o) : o \in { Or2(l1, l2) : l1 \in Len2O, l2 \in Len2O } }
+             \cup { Not(PCall(PAny, o)) : o \in { Or2(l1, l2) : l1 \in Len2O, l2 \in Len1O \cup Len2O } }
+             \cup { Or2(PCall(PAny, o), Ref("x")) : o \in { Or2(l1, l2) : l1 \in Len2O, l2 \in Len2O } })
+
+QuickPats  == SetToSeq(FamAq \cup FamS \cup FamT \cup FamLq \cup FamD \cup FamO)
 DPats      == SetToSeq(FamD)
 QuickTrees == SetToSeq(TreesQuick)
 
